@@ -116,7 +116,7 @@ func ParseQuery(b []byte) (*Query, error) {
 
 // TokenOpts selects what the token says.
 type TokenOpts struct {
-	HashAlg    []byte   // AlgorithmIdentifier DER for the imprint
+	HashAlg    []byte // AlgorithmIdentifier DER for the imprint
 	Imprint    []byte
 	Nonce      *big.Int // nil = absent
 	GenTime    time.Time
